@@ -524,7 +524,15 @@ def rule_skip_preface(ctx):
                   "fingerprint of a capture that starts with the preface is None while the incremental extractor reports one" % T.pp(d)[:60], ctx.loc(b, blk))
 
 
+def rule_default_frame_cap(ctx):
+    """frames of the protocol's default maximum size are decoded (shared with C11.R3)"""
+    from ..engine import report as R
+    from . import C11
+    C11.rule_frame_cap_default(R.Retag(ctx, "C11."))
+
+
 def run(ctx):
+    rule_default_frame_cap(ctx)
     rule_skip_preface(ctx)
     rule_R1(ctx)
     rule_R2(ctx)
